@@ -6,6 +6,7 @@ CONSTANTS
   MaxSerial = 0
   MaxNow = 0
   GenDepth = 2500
+  Stream = FALSE
 INIT Init
 NEXT GenNext
 INVARIANT LedgerExact
